@@ -129,6 +129,22 @@ type service struct {
 	subs  []interface{}
 	qoss  []byte
 	rmsgs []*message.PublishMessage
+
+	// Last packet identifier used for a PUBLISH forwarded to this connection
+	// (server side). See nextPacketID().
+	pktid uint32
+}
+
+// nextPacketID returns the packet identifier for the next QoS 1/2 PUBLISH the
+// server sends on this connection. Messages arrive here with the identifiers
+// their publishers chose, which are only unique per publishing connection; on
+// this connection they must not collide with each other.
+func (svc *service) nextPacketID() uint16 {
+	for {
+		if id := uint16(atomic.AddUint32(&svc.pktid, 1)); id != 0 {
+			return id
+		}
+	}
 }
 
 func (svc *service) start() error {
@@ -155,6 +171,11 @@ func (svc *service) start() error {
 			sr := msg.Retain()
 			if sr {
 				msg.SetRetain(false)
+			}
+
+			// number the forwarded message for this connection
+			if msg.QoS() != message.QosAtMostOnce {
+				msg.SetPacketID(svc.nextPacketID())
 			}
 
 			if err := svc.publish(msg, nil); err != nil {
